@@ -73,6 +73,10 @@ PATTERNS = [
     ("i", "", "h_%i.RAW", False),
     ("relative", "", "rel_%d.raw", True),
     ("relative-subdir", "o", "rel_%02d", True),
+    ("precision", "", "picture_%.3d", False),
+    ("precision-bare", "", "%.2d", False),
+    ("precision-ext", "", "q_%.4d.raw", False),
+    ("dot-in-stem", "", "a.b_%d.raw", False),
     ("default", "", None, True),
 ]
 QUIET = [["-q"], ["-q"], ["--quiet"], ["--no-status"], [], []]
@@ -90,7 +94,7 @@ def setup(ctx):
     atexit.register(shutil.rmtree, _TMP, True)
     from vc2_conformance.scripts import vc2_bitstream_validator as vv  # noqa: F401  (load before rebinding)
 
-    _GUARD = vc2util.SizeGuard().install()
+    _GUARD = vc2util.SizeGuard(bounds={"luma_excursion": 1 << 64, "color_diff_excursion": 1 << 64}, max_depth=64).install()
 
     # observe which exception the command reports as internal error: _print_error
     # is called from inside the except blocks, so sys.exc_info() is live there
@@ -179,6 +183,26 @@ def _sibling_cases(rng, n):
             yield {"data": d, "op": "sibling-alone:" + attr, "seed": "sibling"}
 
 
+DEEP_BITS = [15, 16, 17, 24, 31, 32, 33, 48, 63, 64]
+
+
+def _deep_cases(rng, n):
+    """conformant lossless streams with deep samples (the raw writer packs them into 2, 4 or 8 byte words): extreme
+    and random sample values at depths around every word-size boundary"""
+    from vlib import pipeline
+    from vlib.gen import configs
+
+    for _ in range(n):
+        r = configs.random_recipe(rng, {"lossless": "yes", "maxw": 4, "maxh": 4, "max_slices": (1, 1), "max_dwt": 1, "fragments": "no"})
+        lb, cb = rng.choice(DEEP_BITS), rng.choice(DEEP_BITS)
+        r["range"] = [0, (1 << lb) - 1, 1 << (cb - 1), (1 << cb) - 1]
+        r["pics"]["n"] = 2 if r["pcm"] else 1
+        r["pics"]["class"] = rng.choice(["max", "zero", "mid", "noise", "noise", "checker"])
+        o = pipeline.run(r)
+        if o.stage == "done" and o.verdict.kind == "ok":
+            yield {"data": o.data, "op": "deep:%d/%d:%s" % (lb, cb, r["pics"]["class"]), "seed": "deep"}
+
+
 def cases(spec, ctx):
     rng = ctx.rng
     corpus = cliwork.load_corpus(ctx, spec.get("size", "quick"))
@@ -199,6 +223,10 @@ def cases(spec, ctx):
     # anything the command caches per format under too coarse a key shows here
     for case in _sibling_cases(rng, 6 if spec.get("size", "quick") == "quick" else 40):
         case["v"] = _variant(rng)
+        yield case
+    for case in _deep_cases(rng, 5 if spec.get("size", "quick") == "quick" else 40):
+        case["v"] = _variant(rng)
+        ctx.count("deep_sample_streams")
         yield case
     for i in range(spec["n"]):
         if rng.random() < 0.03:
